@@ -20,8 +20,26 @@ def gen_case(p):
     return doms, cond
 
 
+def run_flatten_case(p):
+    O.reset_registry()
+    rng = random.Random(p['seed'])
+    dom = O.make_domain(rng, p.get('n', 3), falsy=p.get('falsy', False))
+    cond = O.gen_cond(rng, 1, 1, falsy=False, vocab=('cmp', 'name'), neg=False)
+    try:
+        got, want, q = O.run_flatten(dom, p.get('with_cond', False), p.get('select_parent', True), cond)
+        if got != want:
+            return {'query': f"an(set_of([{'x, ' if p.get('select_parent', True) else ''}flatten(x.tags)]"
+                             f"{', ' + repr(cond) if p.get('with_cond') else ''}))",
+                    'domain': repr(dom), 'got_rows': len(got), 'want_rows': len(want)}
+    except Exception as e:  # noqa
+        return {'exception': repr(e), 'trace': traceback.format_exc(limit=4)}
+    return None
+
+
 def run_case(p):
     """returns None if the real engine agrees with the reference, else a description of the disagreement."""
+    if p.get('kind') == 'flatten':
+        return run_flatten_case(p)
     O.reset_registry()
     doms, cond = gen_case(p)
     if p.get('caching', True):
@@ -74,6 +92,8 @@ FAMILIES = {
     'C02': [dict(nvars=2, depth=2, neg=False, vocab=['cmp', 'name']), dict(nvars=3, depth=2, neg=False, vocab=['cmp'])],
     'C05': [dict(nvars=2, depth=2, neg=True, caching=True, reeval=True), dict(nvars=1, depth=3, caching=True, reeval=True)],
     'C18': [dict(nvars=2, depth=2, neg=False)],
+    'C16': [dict(kind='flatten', with_cond=False, select_parent=True), dict(kind='flatten', with_cond=True, select_parent=True),
+            dict(kind='flatten', with_cond=False, select_parent=False), dict(kind='flatten', with_cond=True, select_parent=False, falsy=True)],
 }
 
 
